@@ -32,6 +32,12 @@ def install(eng):
     @reg(isinstance)
     def m_isinstance(eng, st, args, kw):
         v, cls = args
+        from .engine import SliceVal
+
+        if isinstance(v, SliceVal):
+            classes = cls if isinstance(cls, tuple) else (cls,)
+            yield st, any(c in (slice, object) for c in classes)
+            return
         if not isinstance(v, SV):
             if isinstance(v, Exc):
                 classes = cls if isinstance(cls, tuple) else (cls,)
